@@ -118,12 +118,17 @@ def main():
             os.remove(f)
         # rebuild the unpatched binary so that later runs start from the real tree
         sh([sys.executable, "-c", "import sys; sys.path.insert(0, %r); from fsim import core; core.build(quiet=True)" % VERIF])
-    meta["checks"] = results
-    meta["caught_by"] = [c for c, r in results.items() if r["exit"] == 1]
     old = {}
     mp = os.path.join(dst, "meta.json")
     if os.path.exists(mp):
         old = json.load(open(mp))
+    hist = old.get("history", [])
+    if old.get("checks"):
+        hist.append({"verif_commit": old.get("verif_commit"), "checks": old["checks"]})
+    meta["history"] = hist
+    meta["verif_commit"] = sh(["git", "-C", VERIF, "rev-parse", "--short", "HEAD"]).stdout.decode().strip() + "+worktree"
+    meta["checks"] = results
+    meta["caught_by"] = [c for c, r in results.items() if r["exit"] == 1]
     for k in ("needs", "idea"):
         if k in old:
             meta[k] = old[k]
